@@ -493,6 +493,11 @@ SERVERS = {
     'warnonly': dict(kex=('curve25519-sha256',), key=('ssh-ed25519',), enc=('aes256-ctr',), mac=('hmac-sha2-256',)),
     'unknown': dict(kex=('curve25519-sha256', 'zz-newkex@example.org'), key=('ssh-ed25519',), enc=('aes256-ctr', 'zz-newcipher@example.org', 'yy-cipher2'),
                     mac=('hmac-sha2-512-etm@openssh.com', 'xx-mac@example.org'), banner=b'SSH-2.0-dropbear_2022.83'),
+    # every place where a collection of names is joined into one line of text: the strict-KEX advisory (several ciphers and MACs), the RSA family, several unknown names
+    'terrapin': dict(kex=('curve25519-sha256', 'kex-strict-s-v00@openssh.com', 'diffie-hellman-group14-sha256', 'zz-kex-a@example.org', 'zz-kex-b@example.org'),
+                     key=('rsa-sha2-512', 'rsa-sha2-256', 'ssh-rsa', 'ssh-ed25519'),
+                     enc=('chacha20-poly1305@openssh.com', 'aes128-cbc', 'aes256-cbc', '3des-cbc', 'aes256-ctr', 'zz-enc-a', 'zz-enc-b', 'zz-enc-c'),
+                     mac=('hmac-sha2-256-etm@openssh.com', 'hmac-sha2-512-etm@openssh.com', 'umac-128-etm@openssh.com', 'hmac-sha1-etm@openssh.com', 'hmac-sha1'), banner=b'SSH-2.0-OpenSSH_8.9'),
 }
 
 
@@ -668,7 +673,7 @@ def oracle_process(ctx, cov):
     r = ctx.rng
     seeds = ['0', '1', '2', 'random']
     argsets = [['-n'], ['-n', '-j'], ['-n', '-jj'], [], ['-n', '-b', '-l', 'warn'], ['-n', '-v']]
-    servers = ['mixed', 'unknown'] if ctx.tier != 'thorough' else list(SERVERS)
+    servers = ['mixed', 'unknown', 'terrapin'] if ctx.tier != 'thorough' else list(SERVERS)
     if ctx.tier != 'thorough':
         argsets = argsets[:3] + [r.choice(argsets[3:])]
     else:
